@@ -322,19 +322,9 @@ theorem spec_departure_count_clause_passes_partial (cfg : Cfg) (ok : CfgOK cfg) 
     {A2 X : Spec.A} (hs : Sim cfg A2 (if q then ticks cfg (readOne cfg s rd) else readOne cfg s rd))
     (hXm : (Spec.applyDepartures X evs).mods = A2.mods) (hXw : X.w = A2.w) (hXf : X.fail = A2.fail) (md : Option Nat) :
     Spec.ErrExt ["C07"] X (Spec.checkDepartures cfg X md evs) := by
-  have hall := OrdAll_of_perm hperm
-  have c1 := ct_readOne ok hall hfuel h rd
-  have c2 : CT cfg s (if q then ticks cfg (readOne cfg s rd) else readOne cfg s rd) := by
-    cases q
-    · exact c1
-    · exact c1.nest (fun h' => ct_ticks ok hall hfuel h') (ticks_nest cfg _)
-  generalize (if q then ticks cfg (readOne cfg s rd) else readOne cfg s rd) = s2 at he hs c2
-  refine Spec.checkDepartures_c14 cfg X md evs (dep_c14_end hs c2.top.aopen evs hXm hXw hXf (fun o d U hU => ?_))
-  obtain ⟨ext, oe, p⟩ := c2.cnt o d U hU
-  have : ext = Ev.rd rd.uid :: evs := List.append_cancel_left (oe.symm.trans he)
-  subst this
-  intro hst hUo
-  have := p hst hUo
-  simpa [closeN, fcnt] using this
+  refine depCount_frame ok hfuel hperm h rd ?_ evs he hs hXm hXw hXf md
+  cases q
+  · exact Or.inl rfl
+  · exact Or.inr rfl
 
 end Pyrtma.C14
